@@ -36,6 +36,7 @@ type violCtx struct {
 	raw          []byte
 	rawErr       error
 	sub          string // sub-variant, for the class histogram
+	cbSigOps     int    // sigops: that many OP_CHECKSIG opcodes are appended to the coinbase's input script
 	preRaw       []byte
 }
 
@@ -234,7 +235,12 @@ func (v *violCtx) pre() {
 		}
 	case "cb_overclaim":
 		v.effective = true
-		if arg%2 == 0 {
+		switch {
+		case mod(arg, 5) == 4:
+			// the claim itself is exactly what is allowed, but it is split into two outputs above 2^63 whose
+			// sum wraps around 2^64 to that amount (see post): only the money-range rule refuses it
+			v.sub = "outputs-wrap-2^64"
+		case arg%2 == 0:
 			v.cbExtraClaim = 1
 		}
 	case "sigops":
@@ -402,13 +408,18 @@ func (v *violCtx) sigops() {
 		}
 		cost += consensus.TxSigOpCost(t, coins, flags)
 	}
-	variant := mod(arg, 6)
-	v.sub = []string{"at-limit", "legacy+4", "witness+1", "after-opreturn+4", "p2sh+4", "multisig+4"}[variant]
+	variant := mod(arg, 8)
+	v.sub = []string{"at-limit", "legacy+4", "witness+1", "after-opreturn+4", "p2sh+4", "multisig+4", "coinbase-scriptsig+4", "coinbase-scriptsig-at-limit"}[variant]
 	target := consensus.MaxBlockSigOpsCost
 	switch variant {
 	case 0: // exactly at the limit
 	case 2:
 		target += 1
+	case 6: // the other transactions reach the limit; one OP_CHECKSIG in the coinbase's input script adds 4 (see post)
+		v.cbSigOps = 1
+	case 7: // 4 below the limit + the coinbase's one: exactly at the limit
+		target -= 4
+		v.cbSigOps = 1
 	default:
 		target += 4
 	}
@@ -500,6 +511,17 @@ func (c *bctx) finishTxRaw(tx *wire.Tx, x cand) {
 func (v *violCtx) post(b *wire.Block, commit *bool) {
 	c, s, arg := v.c, v.c.s, v.op.Arg
 	switch v.op.Viol {
+	case "cb_overclaim":
+		if v.sub == "outputs-wrap-2^64" {
+			cb := b.Txs[0]
+			v0 := cb.Out[0].Value
+			cb.Out[0].Value = 1 << 63
+			cb.Out = append(cb.Out, wire.TxOut{Value: 1<<63 + v0, PkScript: s.B.True()})
+		}
+	case "sigops":
+		for i := 0; i < v.cbSigOps && v.effective; i++ {
+			b.Txs[0].In[0].ScriptSig = append(b.Txs[0].In[0].ScriptSig, 0xac) // OP_CHECKSIG, counted like any other
+		}
 	case "no_coinbase":
 		if mod(arg, 3) == 1 {
 			// the first transaction starts with a null input but has a second input too: that is not a coinbase
